@@ -22,6 +22,9 @@ enum {
     /* write_raw whose SOURCE lies inside the writer's own buffer and overlaps the destination (bytes re-emitted from the output so far /
      * a payload staged just ahead of the cursor): the stored bytes must be the source as it was before the call */
     WO_RAW_BACK, WO_RAW_AHEAD,
+    /* parser_to_writer with a healthy parser that is NOT on a container (on an integer): returns false and changes nothing, neither
+     * the counter nor the error indicator, whatever state the writer is in */
+    WO_P2W_REFUSED,
     /* payloads that need the 4-byte length prefix; only used by the "big" pass (capacities around every piece boundary) */
     WO_STR_40000, WO_BYT_32768,
     /* parametric operations of the "value" pass: the argument comes from wexp_vint / wexp_vdbl / wexp_vlen */
@@ -36,7 +39,7 @@ static const char *const wo_name[WO_NOPS] = {
     "object_begin", "object_end", "array_begin", "array_end", "true", "false", "int(1)", "int(-128)", "int(128)", "int(-32769)", "int(2^31)",
     "int(INT64_MIN)", "double(-1.5)", "string_with_len(0)", "string_with_len(1)", "string_with_len(127)", "string_with_len(128)",
     "string_with_len(300)", "write_string(\"ab\")", "write_name(\"a\")", "bytes(0)", "bytes(1)", "bytes(128)", "write_raw(0)", "write_raw(2)",
-    "parser_to_writer([1])", "write_raw(4 bytes starting 2 below the cursor)", "write_raw(4 bytes staged 1 above the cursor)", "string_with_len(40000)", "bytes(32768)", "integer(V)", "double(V)", "string_with_len(L)", "bytes(L)", "write_string(L chars)", "write_raw(L)",
+    "parser_to_writer([1])", "write_raw(4 bytes starting 2 below the cursor)", "write_raw(4 bytes staged 1 above the cursor)", "parser_to_writer(parser on an integer)", "string_with_len(40000)", "bytes(32768)", "integer(V)", "double(V)", "string_with_len(L)", "bytes(L)", "write_string(L chars)", "write_raw(L)",
     "string_with_len(INT32_MAX+1)", "bytes(SIZE_MAX)", "write_string(NULL)", "write_raw(NULL)", "write_raw(len=SIZE_MAX)", "write_raw(len=SIZE_MAX-1: counter+len wraps)"
 };
 
@@ -97,6 +100,7 @@ static int wexp_ref_op(int op, vf_doc *ref, wpiece *pc)
         for (int i = 0; i < 4; i++) wexp_alias_bytes[i] = (i < 2 && a >= 2) ? ref->bytes[a - 2 + (size_t) i] : 0xA5;
         vf_put(ref, wexp_alias_bytes, 4); ONE(); break;
     case WO_RAW_AHEAD: memcpy(wexp_alias_bytes, "WXYZ", 4); vf_put(ref, wexp_alias_bytes, 4); ONE(); break;
+    case WO_P2W_REFUSED: break;     /* nothing is emitted */
     case WO_RAW_0: ONE(); break;    /* a zero-length piece */
     case WO_RAW_2: vf_put(ref, "\x44\x45", 2); ONE(); break;
     case WO_P2W: vf_put(ref, wexp_p2w_doc + 1, 4); ONE(); break;
@@ -158,6 +162,16 @@ static bool wexp_real_op(int op, binson_writer *w)
         bool r = binson_write_raw(w, stage, 4);
         if (stage[3] == priv[3]) stage[3] = 0xA5;       /* the one staged byte the write does not cover: back to the fill pattern (if it changed, the content oracle reports it) */
         return r;
+    }
+    case WO_P2W_REFUSED: {
+        binson_state st[3];
+        binson_parser p;
+        memset(&p, 0, sizeof p);
+        p.state = st; p.max_depth = 3;
+        if (!binson_parser_init_array(&p, wexp_p2w_doc, sizeof wexp_p2w_doc) || !binson_parser_go_into_array(&p) || !binson_parser_next(&p) || !binson_parser_go_into_array(&p) || !binson_parser_next(&p) ||
+            binson_parser_get_type(&p) != BINSON_TYPE_INTEGER)
+            vf_die("wexp: cannot position the helper parser on the integer");
+        return binson_parser_to_writer(&p, w);
     }
     case WO_RAW_0: return binson_write_raw(w, wexp_payload, 0);
     case WO_RAW_2: return binson_write_raw(w, (const uint8_t *) "\x44\x45", 2);
@@ -242,7 +256,7 @@ static bool wexp_run(const wexp_cfg *cf, const int *seq, int n, size_t cap, wexp
                 if (ref_overflow) failed = true;
             }
             expect_counter = ref.len;
-            exp_ret = !failed;
+            exp_ret = !failed && op != WO_P2W_REFUSED;
         } else {
             failed = true;
             exp_ret = false;
@@ -279,6 +293,12 @@ static bool wexp_run(const wexp_cfg *cf, const int *seq, int n, size_t cap, wexp
                 snprintf(mm->sig, sizeof mm->sig, "latch");
                 ok = false; break;
             }
+        }
+        if (op == WO_P2W_REFUSED && (w.error_flags != e0 || memcmp(shadow, dptr, cap))) {
+            snprintf(mm->why, sizeof mm->why, "call %d (%s) must change nothing: error %d -> %d, destination %s", i, wo_name[op], (int) e0, (int) w.error_flags,
+                     memcmp(shadow, dptr, cap) ? "MODIFIED" : "unchanged");
+            snprintf(mm->sig, sizeof mm->sig, "refused-to_writer-changed-writer");
+            ok = false; break;
         }
         if (noenc && (cf->c09 || cf->c04)) {
             if (w.error_flags == BINSON_ERROR_NONE || memcmp(shadow, dptr, cap)) {
@@ -497,6 +517,13 @@ static void wexp_values(const wexp_cfg *cf, int w, int W, uint64_t start, const 
                 wexp_vint = (int64_t) u; VALUE_RUNS(WO_INT_V);
                 wexp_vdbl = u; VALUE_RUNS(WO_DBL_V);
             }
+    }
+    {
+        int64_t p10 = 1;
+        for (int k = 0; k <= 18; p10 = k < 18 ? p10 * 10 : p10, k++) {
+            if (!MINE()) continue;
+            for (int d = -1; d <= 1; d++) for (int sg = 0; sg < 2; sg++) { wexp_vint = sg ? -(p10 + d) : p10 + d; VALUE_RUNS(WO_INT_V); }
+        }
     }
     static const uint64_t dbl[] = { 0, 0x8000000000000000ULL, 0x3ff0000000000000ULL, 0x7ff0000000000000ULL, 0xfff8000000000001ULL, 1, 0x0102030405060708ULL, 0xffffffffffffffffULL, 0x00ff00ff00ff00ffULL, 0xff00ff00ff00ff00ULL };
     for (size_t i = 0; i < sizeof dbl / sizeof dbl[0]; i++) { if (!MINE()) continue; wexp_vdbl = dbl[i]; VALUE_RUNS(WO_DBL_V); }
